@@ -76,6 +76,8 @@ type Config struct {
 	// GQualified: some accesses to variables are written `_G.name` (always the global of that name,
 	// whatever local is visible); the name token is then a field (Var == VarNone)
 	GQualified bool
+	// LibNames: some locals are spelled like standard-library names (type, next, file, table, string)
+	LibNames bool
 	// DupParams: parameter lists of up to four names with `_` placeholders, repeated names and (in colon
 	// methods) an explicit `self` (implied by Patterns)
 	DupParams bool
@@ -190,7 +192,12 @@ func (g *Gen) push(isFunc bool) {
 }
 func (g *Gen) pop() { g.scopes = g.scopes[:len(g.scopes)-1] }
 
+var libNamePool = []string{"type", "next", "file", "table", "string"}
+
 func (g *Gen) freshName() string {
+	if g.cfg.LibNames && g.intn(10, "libName") == 0 {
+		return libNamePool[g.intn(len(libNamePool), "libNameIdx")]
+	}
 	switch g.cfg.Naming {
 	case NamesTiny:
 		return tinyPool[g.intn(len(tinyPool), "name")]
